@@ -1,3 +1,101 @@
 import Holpy.Common.Sexp
-/- stub: replaced when the C07 model is built -/
-def main : IO Unit := Holpy.lineLoop (fun _ => "bad-op")
+import Holpy.C07.Model
+import Holpy.C07.Gen
+/-
+Line protocol of the C07 model (one s-expression in, one out); strings are percent-encoded atoms
+(harness/common/sexp.py `enc`):
+  (print UNI SKEL)    -> (TOK ...)                 token stream of the model printer, generated tables
+  (parse (TOK ...))   -> SKEL | none               model parser on a token list
+  (lex TEXT)          -> (TOK ...) | none          model lexer on a printed text
+  (parsetext TEXT)    -> SKEL | none               lexer, then parser
+SKEL = (atom s) | (app f a) | (bin o l r) | (un o a) | (binder b x body) | (ite c a b)
+TOK  = lp | rp | dot | if | then | else | (sym s) | (id s)
+-/
+open Holpy Holpy.C07
+
+namespace Holpy.C07.Driver
+
+def hexVal (c : Char) : Option Nat :=
+  if c.isDigit then some (c.toNat - '0'.toNat)
+  else if 'a' ≤ c ∧ c ≤ 'f' then some (c.toNat - 'a'.toNat + 10)
+  else none
+
+/-- inverse of `enc`: `%<hex>%` is one character, `%e` the empty string -/
+partial def decChars : List Char → List Char
+  | [] => []
+  | '%' :: cs =>
+    let h := cs.takeWhile (· ≠ '%')
+    let rest := (cs.dropWhile (· ≠ '%')).drop 1
+    let n := h.foldl (fun acc c => acc * 16 + (hexVal c).getD 0) 0
+    Char.ofNat n :: decChars rest
+  | c :: cs => c :: decChars cs
+
+def dec (s : String) : String := if s = "%e" then "" else String.ofList (decChars s.toList)
+
+def safe : List Char := "abcdefghijklmnopqrstuvwxyzABCDEFGHIJKLMNOPQRSTUVWXYZ0123456789_-+.'?:=<>!*/&|~^@#$,;[]{}".toList
+
+def hexDigits (n : Nat) : List Char := (Nat.toDigits 16 n)
+
+def enc (s : String) : String :=
+  if s = "" then "%e" else
+  String.ofList (s.toList.flatMap fun c => if safe.contains c then [c] else '%' :: hexDigits c.toNat ++ ['%'])
+
+partial def skelOf : Sexp → Option Skel
+  | .list [.atom "atom", .atom s] => some (.atom (dec s))
+  | .list [.atom "app", f, a] => do some (.app (← skelOf f) (← skelOf a))
+  | .list [.atom "bin", o, l, r] => do some (.bin (← o.toNat?) (← skelOf l) (← skelOf r))
+  | .list [.atom "un", o, a] => do some (.un (← o.toNat?) (← skelOf a))
+  | .list [.atom "binder", b, .atom x, body] => do some (.binder (← b.toNat?) (dec x) (← skelOf body))
+  | .list [.atom "ite", c, a, b] => do some (.ite (← skelOf c) (← skelOf a) (← skelOf b))
+  | _ => none
+
+partial def skelTo : Skel → Sexp
+  | .atom s => .list [.atom "atom", .atom (enc s)]
+  | .app f a => .list [.atom "app", skelTo f, skelTo a]
+  | .bin o l r => .list [.atom "bin", Sexp.ofNat o, skelTo l, skelTo r]
+  | .un o a => .list [.atom "un", Sexp.ofNat o, skelTo a]
+  | .binder b x body => .list [.atom "binder", Sexp.ofNat b, .atom (enc x), skelTo body]
+  | .ite c a b => .list [.atom "ite", skelTo c, skelTo a, skelTo b]
+
+def tokTo : Tok → Sexp
+  | .lp => .atom "lp" | .rp => .atom "rp" | .dot => .atom "dot"
+  | .kif => .atom "if" | .kthen => .atom "then" | .kelse => .atom "else"
+  | .sym s => .list [.atom "sym", .atom (enc (Gen.symbols.getD s "?"))]
+  | .id s => .list [.atom "id", .atom (enc s)]
+
+def tokOf : Sexp → Option Tok
+  | .atom "lp" => some .lp | .atom "rp" => some .rp | .atom "dot" => some .dot
+  | .atom "if" => some .kif | .atom "then" => some .kthen | .atom "else" => some .kelse
+  | .list [.atom "sym", .atom s] => some (.sym (Gen.symbols.idxOf (dec s)))
+  | .list [.atom "id", .atom s] => some (.id (dec s))
+  | _ => none
+
+def handle (line : String) : String :=
+  match Sexp.parse line with
+  | some (.list [.atom "print", u, t]) =>
+    match u.toBool?, skelOf t with
+    | some uni, some sk => toString (Sexp.list ((printSkel Gen.table Gen.ladder uni sk).map tokTo))
+    | _, _ => "bad-op"
+  | some (.list [.atom "parse", .list ts]) =>
+    match ts.mapM tokOf with
+    | some toks =>
+      match parseSkel Gen.table Gen.ladder toks with
+      | some sk => toString (skelTo sk)
+      | none => "none"
+    | none => "bad-op"
+  | some (.list [.atom "lex", .atom s]) =>
+    match lex Gen.symbols (dec s) with
+    | some toks => toString (Sexp.list (toks.map tokTo))
+    | none => "none"
+  | some (.list [.atom "parsetext", .atom s]) =>
+    match lex Gen.symbols (dec s) with
+    | some toks =>
+      match parseSkel Gen.table Gen.ladder toks with
+      | some sk => toString (skelTo sk)
+      | none => "none"
+    | none => "none"
+  | _ => "bad-op"
+
+end Holpy.C07.Driver
+
+def main : IO Unit := Holpy.lineLoop Holpy.C07.Driver.handle
